@@ -306,6 +306,71 @@ theorem c02_walk_shape (c : Cfg) (s : State) (hr : Reachable c s) (t : Nat) (dt 
 example : (run c02Cfg (init c02Cfg) (c02Sched.take 8)).slot = Slot.chain [3, 2, 1] := by decide
 example : (run c02Cfg (init c02Cfg) (c02Sched.take 11)).pc 0 = Pc.rRun false [Act.wake 3, Act.store 2, Act.wake 1] := by decide
 
+/-! ## the resolver is a coroutine that awaits its suspend point: `bool won = co_await promise(...)`
+
+`Cfg.aw t` marks such a resolver call.  Claim, `set`, the exchange and the walk are those of every call; the suspend point with
+the collected coroutine handles is not dropped (its destructor resumes them in order) but awaited:
+`suspend_point::await_suspend` pops the last handle for the symmetric transfer, queues the others in order and the awaiting
+coroutine behind them.  `Cfg.aw` is a field of the configuration, so **every theorem of this file and of `Props/C01.lean`
+covers awaiting resolvers** (they quantify over all `c : Cfg`); what is specific to them is the order below. -/
+
+/-- the blocking waiters and callbacks of a detached chain `l`, handled while it is walked (chain order) -/
+def inWalkActs (c : Cfg) (l : List Nat) : List Act :=
+  (l.filter (fun x => wkOf c x = WK.sync ∨ wkOf c x = WK.cb)).map
+    (fun x => if wkOf c x = WK.sync then Act.store x else Act.wake x)
+
+/-- the coroutine-like waiters (coroutines, `has_value()` awaiters) of a detached chain `l`: their handles are collected -/
+def collected (c : Cfg) (l : List Nat) : List Nat :=
+  l.filter (fun x => ¬ (wkOf c x = WK.sync ∨ wkOf c x = WK.cb))
+
+/-- **Order of release.**  The exchange of agent `t` on a chain `l` leaves it with: the blocking waiters and callbacks of `l` in
+chain order, then the collected coroutines — in collection order when the suspend point is dropped, and when `t` awaits it
+the *last* collected one first, followed by the others in collection order (`awaitOrder (r ++ [y]) = y :: r`). -/
+theorem c02_await_order (c : Cfg) (s : State) (t : Nat) (dt : Bool) (l : List Nat)
+    (hpc : s.pc t = Pc.rResolve dt) (hs : s.slot = Slot.chain l) :
+    (astep c s t).1.pc t = Pc.rRun dt (inWalkActs c l ++
+      (if c.aw t then awaitOrder (collected c l) else collected c l).map Act.wake)
+    ∧ awaitOrder [] = []
+    ∧ (∀ (r : List Nat) (y : Nat), awaitOrder (r ++ [y]) = y :: r) := by
+  refine ⟨?_, rfl, awaitOrder_snoc⟩
+  simp only [astep, hpc, hs, chainOf, setPc, upd_same, buildActs, resumeOrder, inWalkActs, collected]
+
+/-- **Awaiting releases the same waiters.**  Whether agent `t` awaits its suspend point or drops it, the walk performs the same
+actions on the same waiters, each as often — only the order of the coroutine resumptions differs. -/
+theorem c02_await_same_waiters (c : Cfg) (t : Nat) (l : List Nat) :
+    (buildActs c t l).Perm (buildActs { c with aw := fun _ => false } t l) := by
+  unfold buildActs
+  refine List.Perm.append (List.Perm.refl _) ?_
+  have h1 : wkOf { c with aw := fun _ => false } = wkOf c := rfl
+  rw [h1]
+  have h2 : resumeOrder { c with aw := fun _ => false } t (l.filter (fun x => ¬ (wkOf c x = WK.sync ∨ wkOf c x = WK.cb)))
+      = l.filter (fun x => ¬ (wkOf c x = WK.sync ∨ wkOf c x = WK.cb)) := by simp [resumeOrder]
+  rw [h2]
+  exact (resumeOrder_perm c t _).map _
+
+/-- witness: two coroutines, a `has_value()` awaiter and a callback wait; the resolver (agent 4) is a coroutine awaiting its call -/
+def c02AwCfg : Cfg :=
+  { n := 5
+    kind := fun i => match i with
+      | 0 => Kind.wait WK.coro
+      | 1 => Kind.wait WK.hasv
+      | 2 => Kind.wait WK.coro
+      | 3 => Kind.wait WK.cb
+      | _ => Kind.res (RK.value 7)
+    aw := fun i => i == 4 }
+def c02AwSched : List Nat := [0, 0, 0, 1, 1, 1, 1, 2, 2, 2, 2, 3, 3, 3, 3, 4, 4, 4]
+
+-- the chain is [3, 2, 1, 0]; the callback 3 is invoked while walking, the collected handles are 2, 1, 0: resumed 0, 2, 1
+example : (run c02AwCfg (init c02AwCfg) (c02AwSched.take 17)).pc 4
+    = Pc.rRun false [Act.wake 3, Act.wake 0, Act.wake 2, Act.wake 1] := by decide
+example : (runEv c02AwCfg (init c02AwCfg) c02AwSched).2.drop 17
+    = [Ev.obs 3 (Obs.val 7), Ev.obs 0 (Obs.val 7), Ev.obs 2 (Obs.val 7), Ev.obs 1 (Obs.hv true), Ev.ret 4 true, Ev.fin 4] := by decide
+example : Quiescent c02AwCfg (run c02AwCfg (init c02AwCfg) c02AwSched)
+    ∧ (List.range 5).map (run c02AwCfg (init c02AwCfg) c02AwSched).observed = [1, 1, 1, 1, 0] := by decide
+-- the same run with the suspend point dropped: 2, 1, 0
+example : (run { c02AwCfg with aw := fun _ => false } (init c02AwCfg) (c02AwSched.take 17)).pc 4
+    = Pc.rRun false [Act.wake 3, Act.wake 2, Act.wake 1, Act.wake 0] := by decide
+
 end Cocls.Chain
 
 /-!
